@@ -580,6 +580,15 @@ func (r *SqlManager) Rollback(ctx context.Context) {
 		}
 		// check per transaction_id if all are committed
 		for transactionID, versionChanges := range groupedChanges {
+			// The selection above is per document version, the verdict and the clean-up below are per transaction:
+			// only judge a transaction when all of its changes were selected (they may lie on both sides of the time limit).
+			var total int64
+			if err = tx.Model(&orm.DIDChangeLog{}).Where("transaction_id = ?", transactionID).Count(&total).Error; err != nil {
+				return err
+			}
+			if total != int64(len(versionChanges)) {
+				continue
+			}
 			committed := true
 			for _, change := range versionChanges {
 				committed, err = r.MethodManagers[change.Method()].IsCommitted(ctx, change)
